@@ -34,17 +34,26 @@ CheckSlice(conv, v) == SubSeq(v, CheckLo(conv, v), CheckLo(conv, v) + NCheck(con
 WithCheck(conv, v, chk) ==  \* v with its check slice replaced
   SubSeq(v, 1, CheckLo(conv, v) - 1) \o chk \o SubSeq(v, CheckLo(conv, v) + NCheck(conv), Len(v))
 
+(* generic slice convention (binding data in the event): b = <<pa, pb, ck, cn>>, 0-based; pb <= 0 and ck < 0 count from the end *)
+GPb(e) == IF e.b[2] <= 0 THEN Len(e.v) + e.b[2] ELSE e.b[2]
+GCk(e) == IF e.b[3] < 0 THEN Len(e.v) + e.b[3] ELSE e.b[3]
+PayloadE(e) == IF e.conv = "gen" THEN SubSeq(e.v, e.b[1] + 1, GPb(e)) ELSE Payload(e.conv, e.v)
+CheckLoE(e) == IF e.conv = "gen" THEN GCk(e) + 1 ELSE CheckLo(e.conv, e.v)
+NCheckE(e) == IF e.conv = "gen" THEN e.b[4] ELSE NCheck(e.conv)
+CheckSliceE(e) == SubSeq(e.v, CheckLoE(e), CheckLoE(e) + NCheckE(e) - 1)
+WithCheckE(e, chk) == SubSeq(e.v, 1, CheckLoE(e) - 1) \o chk \o SubSeq(e.v, CheckLoE(e) + NCheckE(e), Len(e.v))
+
 IsStrRet(r) == r.k = "ret" /\ r.t = "str"
 (* documented alternative check characters: <<module, original, alternative>>  *)
 DocumentedAlt == {}
 
-M1(e) == e.kind = "p1" => e.arg = Payload(e.conv, e.v)
-P1(e) == e.kind = "p1" => (IsStrRet(e.r) /\ e.r.v = CheckSlice(e.conv, e.v))
-M2(e) == e.kind = "p2" => (/\ e.pos \in 0..(NCheck(e.conv) - 1)
-                           /\ e.ed = [e.v EXCEPT ![CheckLo(e.conv, e.v) + e.pos] = e.alt]
-                           /\ e.alt # e.v[CheckLo(e.conv, e.v) + e.pos])
-P2(e) == e.kind = "p2" => (~e.acc \/ <<e.m, e.v[CheckLo(e.conv, e.v) + e.pos], e.alt>> \in DocumentedAlt)
-M3(e) == e.kind = "p3" => (IsStrRet(e.gen) => e.ed = WithCheck(e.conv, e.v, e.gen.v))
+M1(e) == e.kind = "p1" => e.arg = PayloadE(e)
+P1(e) == e.kind = "p1" => (IsStrRet(e.r) /\ e.r.v = CheckSliceE(e))
+M2(e) == e.kind = "p2" => (/\ e.pos \in 0..(NCheckE(e) - 1)
+                           /\ e.ed = [e.v EXCEPT ![CheckLoE(e) + e.pos] = e.alt]
+                           /\ e.alt # e.v[CheckLoE(e) + e.pos])
+P2(e) == e.kind = "p2" => (~e.acc \/ <<e.m, e.v[CheckLoE(e) + e.pos], e.alt>> \in DocumentedAlt)
+M3(e) == e.kind = "p3" => (IsStrRet(e.gen) => e.ed = WithCheckE(e, e.gen.v))
 (* a generator that raises, or returns something that is not a check slice (e.g. '10' when the  *)
 (* payload has no valid check digit), means the payload was not well-formed: P3 says nothing    *)
 (* only the format's own check (raised in the module itself or in the generic algorithm it     *)
@@ -52,7 +61,7 @@ M3(e) == e.kind = "p3" => (IsStrRet(e.gen) => e.ed = WithCheck(e.conv, e.v, e.ge
 (* inside an IBAN) means the payload was not well-formed                                       *)
 AlgorithmModules == {"luhn", "verhoeff", "damm", "iso7064.mod_11_2", "iso7064.mod_11_10", "iso7064.mod_37_2",
                      "iso7064.mod_37_36", "iso7064.mod_97_10"}
-P3(e) == (e.kind = "p3" /\ IsStrRet(e.gen) /\ Len(e.gen.v) = NCheck(e.conv)
+P3(e) == (e.kind = "p3" /\ IsStrRet(e.gen) /\ Len(e.gen.v) = NCheckE(e)
           /\ (e.sitemod = e.m \/ e.sitemod \in AlgorithmModules))
            => ~(\E i \in 1..Len(e.r.mro) : e.r.mro[i] = "stdnum.exceptions.InvalidChecksum")
 ClauseNames == <<"M1", "P1", "M2", "P2", "M3", "P3">>
